@@ -24,9 +24,14 @@ WhyExports(a, b, i) ==
        ELSE IF HasHints(vb) THEN "hints-without-optimize:" \o n
        ELSE WhyExports(a, b, i + 1)
 
+(* StackBalanced: the slot-flag stack is empty again when the module has been traversed (hook `drain_module.stack`) *)
+StackLeft(m) ==
+  LET ds == SelectSeq(m.drv.hooks, LAMBDA e : e.ev = "drain_module") IN IF ds = <<>> THEN 0 ELSE ds[Len(ds)].stack
+
 Why(ob, D) ==
   LET a == MemberWith(ob, TRUE)  b == MemberWith(ob, FALSE) IN
-  IF NoObservation(a) # NoObservation(b) THEN "only-one-setting-runs:" \o NoObservation(a) \o "/" \o NoObservation(b)
+  IF a.drv.term.k = "return" /\ b.drv.term.k = "return" /\ (StackLeft(a) # 0 \/ StackLeft(b) # 0) THEN "slot-flag-stack-not-balanced"
+  ELSE IF NoObservation(a) # NoObservation(b) THEN "only-one-setting-runs:" \o NoObservation(a) \o "/" \o NoObservation(b)
   ELSE IF NoObservation(a) # "" THEN ""          \* neither runs: not C12's concern
   ELSE IF Len(a.rt.exports) # Len(b.rt.exports) THEN "export-count"
   ELSE WhyExports(a, b, 1)
